@@ -34,6 +34,7 @@ def sh(cmd, cwd=None, env=None, timeout=1200):
 def main():
     wt, name = Path(sys.argv[1]), sys.argv[2]
     out = V / "seeded_keep" / name
+    sh("git add -N pypika_tortoise", cwd=wt)       # new modules of an extension show up in the diff
     rc, diff = sh("git diff -- pypika_tortoise", cwd=wt)
     if not diff.strip():
         print("no diff in worktree")
@@ -58,31 +59,50 @@ def main():
         rc_a, o_a = sh(f"git apply {pf}", cwd=wt)
         assert rc_a == 0, o_a
         pf.unlink(missing_ok=True)
-    same = rc0 == 0 and rc1 == 0 and o0 == o1
+    ext = meta_in.get("kind") == "keep-extension"
+    if ext:
+        # an extension: the part of the demonstration about existing behaviour (Part A) is byte-identical, the part about
+        # the new feature (Part B) is skipped on the original and reports OK on the extended code
+        strip = lambda o: "\n".join(l for l in o.splitlines() if not l.startswith("PART B"))  # noqa: E731
+        same = (rc0 == 0 and rc1 == 0 and strip(o0) == strip(o1)
+                and any(l.startswith("PART B OK") for l in o1.splitlines()) and any(l.startswith("PART B SKIPPED") for l in o0.splitlines()))
+    else:
+        same = rc0 == 0 and rc1 == 0 and o0 == o1
     confirmed = rc_t == 0 and same
     print(f"suite with patch: {tests_line} | demo lines {len(o1.splitlines())} | identical output: {same} | confirmed={confirmed}")
     alarms = {}
     for pid in ALL:
         rc, o = sh(f"{PY} {V}/sa/check.py {pid} --tier quick", env={"VERIF_EVIDENCE_DIR": f"/tmp/keep-evidence-{name}", "VERIF_REPO": str(wt)})
         if rc != 0:
-            keys = re.findall(r"^\s+(C\d\d/[^\s]+?): ", o, flags=re.M)
+            keys = re.findall(r"^  (C\d\d/.+?): ", o, flags=re.M)
             alarms[pid] = keys[:8] or ["ANALYSIS-ERROR: " + " ".join(l for l in o.splitlines() if "ANALYSIS-ERROR" in l)[:200]]
     shutil.rmtree(f"/tmp/keep-evidence-{name}", ignore_errors=True)
     out.mkdir(parents=True, exist_ok=True)
+    # reviewed by hand and kept across re-evaluations: alarms that are TRUE violations of a sibling property by an
+    # extension (its author vouched for one property only), each with the demonstration that confirmed it
+    reviewed = {}
+    if (out / "meta.json").exists():
+        try:
+            reviewed = json.loads((out / "meta.json").read_text()).get("sibling_violations", {})
+        except Exception:
+            reviewed = {}
     (out / "patch.diff").write_text(diff)
     if (wt / "seed_demo.py").exists():
         shutil.copy(wt / "seed_demo.py", out / "demo.py")
     meta = {
-        "property": meta_in.get("property", name[:3]), "kind": "keep",
+        "property": meta_in.get("property", name[:3]), "kind": "keep-extension" if ext else "keep",
         "summary": meta_in.get("summary", ""), "files_touched": meta_in.get("files_touched", []),
         "confirmed": confirmed,
         "what_i_ran": {"suite_with_patch": tests_line, "demo_output_lines": len(o1.splitlines()),
                        "demo_output_sha256_with_patch": hashlib.sha256(o1.encode()).hexdigest(),
                        "demo_output_sha256_without_patch": hashlib.sha256(o0.encode()).hexdigest()},
         "alarms": alarms,
+        "sibling_violations": reviewed,
+        "unreviewed_alarms": {p_: [k for k in ks if k not in reviewed.get(p_, {})] for p_, ks in alarms.items()
+                              if [k for k in ks if k not in reviewed.get(p_, {})]},
     }
     (out / "meta.json").write_text(json.dumps(meta, indent=1))
-    print("alarms:", json.dumps(alarms)[:600] if alarms else "NONE")
+    print("alarms:", json.dumps(alarms)[:600] if alarms else "NONE", "| unreviewed:", json.dumps(meta["unreviewed_alarms"])[:300] if meta["unreviewed_alarms"] else "none")
     return 0
 
 
